@@ -136,7 +136,7 @@ m = {
     ],
     'checks': checks,
     'not_applicable': na,
-    'notes': 'exit codes: 0 held within bounds; 1 VIOLATION (reproduced natively); 2 solver counterexample that did not reproduce; 3 inconclusive. known findings: known_findings.json',
+    'notes': 'exit codes: 0 held within bounds (decided by the solver); 1 VIOLATION (reproduced natively against the real code); 2 solver counterexample that no native replay confirmed; 3 inconclusive (encoding not buildable for the changed tree, solver unknown). When a run ends without a solver verdict (2 or 3) a fixed battery of public-API scenarios is evaluated against the statements of the property (props/oracle.py): a violation observed natively is reported as VIOLATION, observing nothing leaves the run at 2/3 - never a pass (DESIGN.md 7.3). known findings: known_findings.json; seeded changes and which checks catch them: seeded/CATCHES.md',
 }
 json.dump(m, open(os.path.join(V, 'MANIFEST.json'), 'w'), indent=1)
 print('checks:', [c['property_id'] for c in checks], 'n/a:', [n['property_id'] for n in na])
